@@ -31,8 +31,8 @@
      pragma / cc (a Pragma / Cache-Control header is already there), day "normal"
      | "leap" (the clock shows 29 February)
    case, part = "gzip" - tools.gzip(): ae (Accept-Encoding class), ct (Content-Type
-     class), body (non-empty), vary ("none" | "other" | "ae"), clen (Content-Length
-     set before)
+     class), body (non-empty), vary ("none" | "other" | "ae": the Vary header
+     already there), clen (Content-Length set before); see GzipAllowed
 
    lines (the same keys on every line; unused ones are "" / 0 / FALSE):
      k="ret"   a tool returned: tool, code (0: None / the response; else the code of
@@ -47,8 +47,8 @@
                response.time; past: days before now)
      k="gres"  gzip() returned: code, exc, body "none" | "own" | "gz" | "other", xe
                (Content-Encoding "none" | "gzip" | "other"), xc (Vary: "none" |
-               "plain" (as before, without Accept-Encoding) | "ae" (what was there
-               plus Accept-Encoding, once) | "lost" | "other"), hcl
+               "plain" (what was there, without Accept-Encoding) | "ae" (what was
+               there and Accept-Encoding, once) | "other"), hcl
 
    THE STATEMENT (RFC 7232 as far as the tools claim it, and their docstrings):
 
@@ -206,30 +206,46 @@ ExpFail(P, ln) ==
         ELSE IF ~(ln.xe = "future" /\ ln.xd = 60) THEN "X02.expires_date"
         ELSE "")
 
-(* gzip(): its docstring.  "acceptable": gzip or x-gzip listed with q > 0 and no
-   identity listed with q > 0 before it is looked at (the tool walks the codings
-   in preference order); a type outside mime_types is never compressed; nothing
-   acceptable at all => 406. *)
-GzipWanted(c) == c.ae \in {"gzip", "xgzip", "idq0gzip", "gzipid"}
-GzipRefused(c) == c.ae \in {"deflate", "star"}           \* neither gzip nor identity is listed
+(* gzip(): its docstring, read with RFC 7231 section 5.3.4 (identity is acceptable unless
+   it is ruled out with q=0).  Allowed results: "gz" (compressed: Content-Encoding
+   gzip, Vary names Accept-Encoding once and keeps what was there, no
+   Content-Length), "same" (nothing changed), "406".
+     ae classes: "none" (no header) | "gzip" | "xgzip" (x-gzip) | "brgzip" (br, gzip)
+     | "gzipq0" (gzip;q=0) | "identity" | "idgzip" (identity, gzip;q=0.5) | "gzipid"
+     (gzip, identity;q=0.5) | "idq0gzip" (identity;q=0, gzip) | "idq0" (identity;q=0)
+     | "deflate" | "star" ( * )
+     ct classes: "html" | "plain" (in mime_types) | "none" (no Content-Type: the tool
+     assumes text/html) | "png" (not in mime_types)                               *)
+GzipAllowed(c) ==
+  LET mime == c.ct \in {"html", "plain", "none"} IN
+  IF ~c.body \/ c.ae = "none" THEN {"same"}
+  ELSE CASE c.ae \in {"gzip", "xgzip", "brgzip"} -> IF mime THEN {"gz"} ELSE {"same"}
+         [] c.ae \in {"gzipq0", "identity", "idgzip", "deflate"} -> {"same"}
+         [] c.ae = "star" -> IF mime THEN {"same", "gz"} ELSE {"same"}
+         [] c.ae = "gzipid" -> IF mime THEN {"gz", "same"} ELSE {"same"}   \* docstring: no; RFC: may
+         [] c.ae = "idq0gzip" -> IF mime THEN {"gz"} ELSE {"same", "406"}
+         [] c.ae = "idq0" -> {"406", "same"}
+         [] OTHER -> {"same"}
 GzipFail(P, ln) ==
   LET c == P.cfg
       v0 == IF c.vary = "none" THEN "none" ELSE IF c.vary = "ae" THEN "ae" ELSE "plain"
       l0 == IF ~c.clen THEN "none" ELSE IF c.body THEN "full" ELSE "zero"
       b0 == IF c.body THEN "own" ELSE "none"
-      untouched == ln.code = 0 /\ ln.body = b0 /\ ln.xe = "none" /\ ln.xc = v0 /\ ln.hcl = l0
+      got == IF ln.code = 406 THEN "406"
+             ELSE IF ln.code # 0 THEN "err"
+             ELSE IF ln.body = "gz" /\ ln.xe = "gzip" THEN "gz"
+             ELSE IF ln.body = b0 /\ ln.xe = "none" THEN "same"
+             ELSE "garbled"
   IN
   IF ln.k # "gres" \/ P.done THEN "X02.trace_shape"
   ELSE IF ln.exc # "" \/ ln.code >= 500 THEN "X02.internal_error"
-  ELSE IF ~c.body \/ c.ae = "none" THEN (IF untouched THEN "" ELSE "X02.gzip_unasked")
-  ELSE IF GzipRefused(c) THEN (IF ln.code = 406 THEN "" ELSE "X02.gzip_not_acceptable")
-  ELSE IF GzipWanted(c) /\ c.ct \in {"html", "plain", "none"} THEN
-       (IF ln.code # 0 THEN "X02.gzip_not_acceptable"
-        ELSE IF ln.body # "gz" \/ ln.xe # "gzip" THEN "X02.gzip_missing"
-        ELSE IF ln.xc # "ae" THEN "X02.gzip_vary"
-        ELSE IF ln.hcl # "none" THEN "X02.gzip_length"
-        ELSE "")
-  ELSE (IF untouched THEN "" ELSE "X02.gzip_unasked")
+  ELSE IF got \in {"err", "garbled"} THEN "X02.gzip_garbled"
+  ELSE IF got \notin GzipAllowed(c) THEN
+       (IF got = "406" THEN "X02.gzip_not_acceptable" ELSE IF got = "gz" THEN "X02.gzip_unasked" ELSE "X02.gzip_missing")
+  ELSE IF got = "gz" /\ ln.xc # "ae" THEN "X02.gzip_vary"
+  ELSE IF got = "gz" /\ ln.hcl # "none" THEN "X02.gzip_length"
+  ELSE IF got = "same" /\ (ln.xc # v0 \/ ln.hcl # l0) THEN "X02.gzip_unasked"
+  ELSE ""
 
 Fail(P, ln) ==
   CASE P.cfg.part = "cond" -> CondFail(P, ln)
